@@ -144,6 +144,14 @@ func c01Shape(s *c01Scn, maxN int, kinds int) {
 			}
 		}
 	}
+	c01Fill(s)
+}
+
+// c01Fill draws the symbolic contents of the entries of a given shape and
+// states the representation invariant of the logs.
+func c01Fill(s *c01Scn) {
+	names := [2]string{"A", "B"}
+	digits := [4]string{"0", "1", "2", "3"}
 	for q := 0; q < 2; q++ {
 		for i := range s.logs[q] {
 			e := &s.logs[q][i]
@@ -544,12 +552,36 @@ func c01View(maxN int, kinds int, types []int) {
 	c01CheckView(&s)
 }
 
-// VerifC01View1: up to 1 update per side (Add/Settle/Fail/FeeUpdate/MalformedFail), all seven channel types.
-func VerifC01View1() { c01View(1, c01NKinds, []int{0, 1, 2, 3, 4, 5, 6}) }
+// VerifC01View1: up to 1 update per side (Add/Settle/Fail/FeeUpdate/MalformedFail);
+// legacy, zero-fee-htlc anchors, taproot final.
+func VerifC01View1() { c01View(1, c01NKinds, []int{0, 3, 6}) }
 
-// VerifC01View: up to 2 updates per side (Add/Settle/Fail/FeeUpdate); legacy,
-// zero-fee-htlc anchors, taproot final.
-func VerifC01View() { c01View(2, c01KFeeUpdate+1, []int{0, 3, 6}) }
+// VerifC01View1All: the same for all seven channel types.
+func VerifC01View1All() { c01View(1, c01NKinds, []int{0, 1, 2, 3, 4, 5, 6}) }
 
-// VerifC01ViewDeep: up to 3 updates per side, incl. MalformedFail.
-func VerifC01ViewDeep() { c01View(3, c01NKinds, []int{0, 1, 2, 3, 4, 5, 6}) }
+// VerifC01View: up to 2 updates per side (Add/Settle/Fail/FeeUpdate), legacy
+// channel (the type whose second-level fees differ between the two HTLC
+// directions), both chains.
+func VerifC01View() { c01View(2, c01KFeeUpdate+1, []int{0}) }
+
+// VerifC01View2Picked: three hand-picked shapes with 2 updates per side (quick
+// tier's slice of VerifC01View): four Adds; two Adds resolved by a Settle and a
+// Fail; two fee updates against two Adds.
+func VerifC01View2Picked() {
+	c01ViewCfg()
+	var s c01Scn
+	s.ct = c01TypeOf(0)
+	s.opener = 0
+	pick := vChoice("pick", 3)
+	s.chain = pick % 2
+	c01Scalars(&s)
+	A, S, F, U := c01KAdd, c01KSettle, c01KFail, c01KFeeUpdate
+	shapes := [3][2][]c01Ent{
+		{{{kind: A}, {kind: A}}, {{kind: A}, {kind: A}}},
+		{{{kind: A}, {kind: A}}, {{kind: S, parent: 1}, {kind: F, parent: 0}}},
+		{{{kind: U}, {kind: U}}, {{kind: A}, {kind: A}}},
+	}
+	s.logs = shapes[pick]
+	c01Fill(&s)
+	c01CheckView(&s)
+}
